@@ -115,6 +115,8 @@ func c17Cases() []retCase {
 		{"json/filtered-padded-xpath", sch("json", "", " /recs/*[v='1'] "), `{"recs": [`, `{"v": "last"}]}`, alt(`{"v": "1"},`, `{"v": "2"}, `), 1},
 		{"xml/nested-groups", sch("xml", "", "/root/g/rec"), "<root><g>", "</g></root>", func(int) string { return "<rec><v>1</v></rec>" }, 1},
 		{"json/distinct-property-names", sch("json", "", "/recs/*"), `{"recs": {`, `"last": {"v": "z"}}}`, func(i int) string { return fmt.Sprintf(`"order-%d-%x": {"v": "1", "k%d": 1},`, i, i*7919, i) }, 1},
+		{"json/javascript-with-context", strings.Replace(sch("json", "", "/recs/*"), `{"v": {"xpath": "v"}}`, `{"v": {"xpath": "v"}, "j": {"custom_func": {"name": "javascript_with_context", "args": [{"const": "JSON.parse(_node).v + x"}, {"const": "x"}, {"xpath": "v"}]}}}`, 1),
+			`{"recs": [`, `{"v": "last"}]}`, func(i int) string { return `{"v": "1", "pad": "0123456789012345678901234567890123456789"},` }, 1},
 		{"json/array", sch("json", "", "/recs/*"), `{"hdr": "h", "recs": [`, `{"v": "last"}]}`, func(int) string { return `{"v": "1", "w": [1, 2]},` + "\n" }, 1},
 		{"json/filtered", sch("json", "", "/recs/*[v='1']"), `{"recs": [`, `{"v": "last"}]}`, alt(`{"v": "1"},`, `{"v": "2"}, `), 1},
 		{"csv/rows", sch("csv", `{"delimiter": ",", "data_row_index": 1, "columns": [{"name": "v"}, {"name": "w"}]}`, ""), "", "", func(int) string { return "1,x\n\n" }, 1},
@@ -219,7 +221,10 @@ func c17Drive(args []string) int {
 		// what the Transform retains besides the node tree (reader buffers, caches): live heap after a collection at a
 		// quarter and at the end of a long stream, while the current record's tree stays as small as above
 		if firstSize > 0 && lastSize <= 4*firstSize {
-			const n1, n2 = 10000, 40000
+			n1, n2 := 10000, 40000
+			if strings.Contains(c.Name, "with-context") {
+				n1, n2 = 80000, 160000 // beyond what the bounded per-node caches of the script functions may hold (65 536 entries)
+			}
 			rd2 := &repeatReader{prefix: c.Prefix, suffix: c.Suffix, unit: c.Unit, k: 3*n2 + 10}
 			if tr2, err := sch.NewTransform("in", rd2, &transformctx.Ctx{}); err == nil {
 				var h1, h2 uint64
